@@ -440,15 +440,21 @@ class AirTouchSocket(Generic[comms.Hdr]):
                 entry = self._message_queue.popleft()
 
                 if self._loop.time() < entry.expiry:
-                    await self._write(entry.header, entry.message)
+                    try:
+                        await self._write(entry.header, entry.message)
+                    except OSError:
+                        raise
+                    except Exception:
+                        # This indicates an error encoding this message
+                        # (ValueError, NotImplementedError, struct.error, ...).
+                        # We shouldn't retry this message, but the connection
+                        # doesn't need to be reset and the messages queued
+                        # behind it must still be sent.
+                        _LOGGER.exception(
+                            "Encoding error for message %s", entry.message
+                        )
                 else:
                     self._log_dropped_message(entry, "expired")
-
-        except (ValueError, NotImplementedError):
-            # This indicates an error encoding this message.
-            # We shouldn't retry this message, but the connection doesn't need
-            # to be reset.
-            _LOGGER.exception("Encoding error for message %s", entry.message)
 
         except OSError as ex:
             # Connection errors may turn up here rather than in the read method.
